@@ -62,7 +62,7 @@ type Graph struct {
 	// Learn switches on the path-learned facts of FindPath (exponential in the number of tests of stable values
 	// on a path: for small graphs only).
 	Learn bool
-	Root      *Frame
+	Root  *Frame
 }
 
 // New creates a graph rooted at fn.
